@@ -105,6 +105,32 @@ fn main() {
             );
             exit(if rep.violations.is_empty() { 0 } else { 1 });
         }
+        "debug" => {
+            // simx debug <PROP> <family> <label> : explore one scenario, print outcome statistics and one log.
+            let fams = families(&args[2], "quick").unwrap();
+            let fam = fams.iter().find(|f| f.name == args[3]).expect("family");
+            let sc = fam.scenarios.iter().find(|s| s.label == args[4]).expect("scenario");
+            let mut outcomes = std::collections::BTreeMap::new();
+            let mut first = None;
+            let st = explore::explore(fam.dev_bound, fam.max_execs, |prefix| {
+                let out = world::run_once(sc, prefix, true);
+                let an = oracle::analyze(sc, &out);
+                *outcomes.entry(format!("{:?}", an.orders)).or_insert(0u64) += 1;
+                if first.is_none() {
+                    first = Some(out.log.clone());
+                }
+                Ok((out.chooser, true))
+            })
+            .unwrap();
+            println!("{:?}", st);
+            for (k, v) in &outcomes {
+                println!("{:8} {}", v, k);
+            }
+            for e in first.unwrap() {
+                println!("{:?}", e);
+            }
+            exit(0);
+        }
         "replay" => {
             let text = std::fs::read_to_string(&args[2]).unwrap_or_else(|e| {
                 eprintln!("cannot read {}: {}", args[2], e);
